@@ -388,6 +388,21 @@ func runC10(in sx.SX) (sx.SX, string) {
 		ft := mustache.NewMustacheTemplate()
 		ft.SetAutoVariables(false)
 		fresh := outcome(ft)
+		// defaults present, but the caller passes an explicit (empty) map: every variable is absent
+		if len(vars) > 0 {
+			dt := mustache.NewMustacheTemplate()
+			dt.SetAutoVariables(false)
+			dt.SetDefaultVariables(vars)
+			et := mustache.NewMustacheTemplate()
+			et.SetAutoVariables(false)
+			if dt.SetTemplate(text) == nil && et.SetTemplate(text) == nil {
+				r1, e1 := dt.EvaluateWithVariables(map[string]string{})
+				r2, e2 := et.EvaluateWithVariables(map[string]string{})
+				if (e1 != nil) != (e2 != nil) || r1 != r2 {
+					fail = fmt.Sprintf("EvaluateWithVariables(empty map) on a template object that has default variables renders %s, without defaults %s", sx.Quote(r1), sx.Quote(r2))
+				}
+			}
+		}
 		c10Warm.SetAutoVariables(false)
 		if first := outcome(c10Warm); first != fresh {
 			fail = "a template object used before: " + first + "; a new one: " + fresh
